@@ -1,6 +1,6 @@
 /-
 C02 — nodes answer each request once, in order, after all derived packets: the END-TO-END statement
-`C02.flow_answers_eq_ref_full` (Props/C02.lean) proved for the classes T1 ⊆ T2 ⊆ T3 ⊆ T4 ⊆ T5 ⊆ T6 of workflows and
+`C02.flow_answers_eq_ref_full` (Props/C02.lean) proved for the classes T1 ⊆ T2 ⊆ T3 ⊆ T4 ⊆ T5 ⊆ T6 ⊆ T7 of workflows and
 schedules. Each `C02.flow_answers_eq_ref_T<k>` is literally the full statement with ONE additional hypothesis
 `C02.ClassT<k> kinds links es`; `C02.classT<k-1>_sub_T<k>` are the inclusions and `C02.flow_T<k>_instance` /
 `C02.flow_class_instance` the non-vacuity instances. The table of classes and what remains open is in the header
@@ -12,6 +12,7 @@ of Props/C02.lean.
   T4  + actions returning no packet                          corollary of T5
   T5  + many-to-one nodes (all three kinds)                  invariant `FlowN.HI`     Proofs/FlowM1..9, FlowN1..21
   T6  + actions returning their input packet (pass-through)                           Proofs/FlowN18s, FlowN19
+  T7  + actions of any kind (also one-to-one) returning nothing                       Proofs/FlowN19
 -/
 import Uniflow.Props.C02
 import Uniflow.Proofs.FlowInv16
@@ -371,7 +372,7 @@ every reachable state of class T5 -/
 theorem C02.flow_invariant_T5 (kinds : List Kind) (links : List (Nat × List Tgt)) (es : List Ext)
     (hc : C02.ClassT5 kinds links es) :
     ∃ aa, Uniflow.FlowN.HI kinds links aa Uniflow.FlowInv.D0 (runExt (initG kinds links) es) :=
-  Uniflow.FlowN.HIe_runExt kinds links hc.1 es _ (fun e he => Uniflow.FlowN.extT6_of_extT5 kinds e (hc.2 e he))
+  Uniflow.FlowN.HIe_runExt kinds links hc.1 es _ (fun e he => Uniflow.FlowN.extT7_of_extT6 kinds e (Uniflow.FlowN.extT6_of_extT5 kinds e (hc.2 e he)))
     (Uniflow.FlowN.HIe_init kinds links hc.1)
 
 open Uniflow.Flow in
@@ -385,7 +386,7 @@ theorem C02.flow_answers_eq_ref_T5 :
     (∀ (i : Nat) (a : Ans), g.resp[i]? = some a → ∃ p, g.roots[i]? = some p ∧ ∃ f, refAns g.log f p = some a) ∧
     (quiescent g = true → anyPanic g = false → refAnswers g = some g.resp) := by
   intro kinds links es _ _ _ hc
-  have hI := Uniflow.FlowN.HIe_runExt kinds links hc.1 es _ (fun e he => Uniflow.FlowN.extT6_of_extT5 kinds e (hc.2 e he))
+  have hI := Uniflow.FlowN.HIe_runExt kinds links hc.1 es _ (fun e he => Uniflow.FlowN.extT7_of_extT6 kinds e (Uniflow.FlowN.extT6_of_extT5 kinds e (hc.2 e he)))
     (Uniflow.FlowN.HIe_init kinds links hc.1)
   exact ⟨Uniflow.FlowN.HIe_safety kinds links _ hI,
     fun hq _ => Uniflow.FlowN.HIe_quiescent_ref_eq kinds links hc.1 _ hI hq⟩
@@ -433,7 +434,8 @@ open Uniflow.Flow in
 theorem C02.flow_invariant_T6 (kinds : List Kind) (links : List (Nat × List Tgt)) (es : List Ext)
     (hc : C02.ClassT6 kinds links es) :
     ∃ aa, Uniflow.FlowN.HI kinds links aa Uniflow.FlowInv.D0 (runExt (initG kinds links) es) :=
-  Uniflow.FlowN.HIe_runExt kinds links hc.1 es _ hc.2 (Uniflow.FlowN.HIe_init kinds links hc.1)
+  Uniflow.FlowN.HIe_runExt kinds links hc.1 es _ (fun e he => Uniflow.FlowN.extT7_of_extT6 kinds e (hc.2 e he))
+    (Uniflow.FlowN.HIe_init kinds links hc.1)
 
 open Uniflow.Flow in
 /-- **The end-to-end statement for class T6** – `C02.flow_answers_eq_ref_full` with the class hypothesis
@@ -447,7 +449,8 @@ theorem C02.flow_answers_eq_ref_T6 :
     (∀ (i : Nat) (a : Ans), g.resp[i]? = some a → ∃ p, g.roots[i]? = some p ∧ ∃ f, refAns g.log f p = some a) ∧
     (quiescent g = true → anyPanic g = false → refAnswers g = some g.resp) := by
   intro kinds links es _ _ hc
-  have hI := Uniflow.FlowN.HIe_runExt kinds links hc.1 es _ hc.2 (Uniflow.FlowN.HIe_init kinds links hc.1)
+  have hI := Uniflow.FlowN.HIe_runExt kinds links hc.1 es _ (fun e he => Uniflow.FlowN.extT7_of_extT6 kinds e (hc.2 e he))
+    (Uniflow.FlowN.HIe_init kinds links hc.1)
   exact ⟨Uniflow.FlowN.HIe_safety kinds links _ hI,
     fun hq _ => Uniflow.FlowN.HIe_quiescent_ref_eq kinds links hc.1 _ hI hq⟩
 
@@ -504,6 +507,95 @@ theorem C02.flow_T6_instance :
       first
       | trivial
       | exact Or.inr ⟨2, rfl⟩
+
+/-! ### class T7: T6 plus actions of ANY kind returning nothing -/
+
+/-- **Class T7** = class T6 with richer schedules (`FlowN.ExtT7`): an action of ANY node kind – also a ONE-TO-ONE
+action, `return nil, nil` – may return nothing (`drop`, `sames 0`). The request is answered with itself
+(`Write(nil, in)`), in the order of its in-port. For one-to-one nodes this is the behaviour since the fix of
+`OneToOneNode.forward` (before it the forward goroutine dereferenced the nil packet and the process died).
+And a one-to-many action may return its input packet on SEVERAL out ports (`sames k`, any `k`): since the fix
+`node.derive` a node hands its tracer a COPY of a packet object the tracer already follows, so `same` is `out` and
+`sames k` is `many` with the request's payload (`Flow.release`). Contains class T6. -/
+def C02.ClassT7 (kinds : List Kind) (links : List (Nat × List Uniflow.Flow.Tgt)) (es : List Uniflow.Flow.Ext) : Prop :=
+  Uniflow.FlowN.GraphWF5 kinds links ∧ ∀ e ∈ es, Uniflow.FlowN.ExtT7 kinds e
+
+open Uniflow.Flow in
+/-- **The end-to-end statement for class T7** – `C02.flow_answers_eq_ref_full` with the class hypothesis
+`C02.ClassT7 kinds links es` and without its freshness hypothesis. -/
+theorem C02.flow_answers_eq_ref_T7 :
+    ∀ (kinds : List Kind) (links : List (Nat × List Tgt)) (es : List Ext),
+    C02.FlowWF kinds links → Uniflow.Tracer.getL links srcKey ≠ [] →
+    C02.ClassT7 kinds links es →
+    let g := runExt (initG kinds links) es
+    (∀ (i : Nat) (a : Ans), g.resp[i]? = some a → ∃ p, g.roots[i]? = some p ∧ ∃ f, refAns g.log f p = some a) ∧
+    (quiescent g = true → anyPanic g = false → refAnswers g = some g.resp) := by
+  intro kinds links es _ _ hc
+  have hI := Uniflow.FlowN.HIe_runExt kinds links hc.1 es _ hc.2 (Uniflow.FlowN.HIe_init kinds links hc.1)
+  exact ⟨Uniflow.FlowN.HIe_safety kinds links _ hI,
+    fun hq _ => Uniflow.FlowN.HIe_quiescent_ref_eq kinds links hc.1 _ hI hq⟩
+
+/-- class T6 is contained in class T7 -/
+theorem C02.classT6_sub_T7 (kinds : List Kind) (links : List (Nat × List Uniflow.Flow.Tgt)) (es : List Uniflow.Flow.Ext)
+    (h : C02.ClassT6 kinds links es) : C02.ClassT7 kinds links es :=
+  ⟨h.1, fun e he => Uniflow.FlowN.extT7_of_extT6 kinds e (h.2 e he)⟩
+
+open Uniflow.Flow in
+/-- on the fork workflow: the one-to-one node 1 DROPS the first request's packet (`return nil, nil`) while a second
+request is pipelined behind it and passes through -/
+def C02.dropOneSched : List Ext :=
+  [.send (.atom 5), .send (.atom 6), .release 0 (.many [some (.atom 7)]), .release 0 (.many [some (.atom 8)]),
+   .release 1 .drop, .release 1 (.out (.atom 9)), .release 3 (.out (.atom 10)),
+   .sinkAnswer 0 (some (.pay (.atom 11)))]
+
+open Uniflow.Flow in
+/-- **non-vacuity of class T7**: the one-to-one node 1 drops the packet derived from the first request – the first
+response is that packet's payload `7` (answered with itself) – and transforms the second (response `11`, the sink's
+answer); no panic, quiescent, responses = `refAnswers`. -/
+theorem C02.flow_T7_instance :
+    C02.ClassT7 Uniflow.FlowH.forkKinds Uniflow.FlowH.forkLinks C02.dropOneSched ∧
+    quiescent (runExt (initG Uniflow.FlowH.forkKinds Uniflow.FlowH.forkLinks) C02.dropOneSched) = true ∧
+    anyPanic (runExt (initG Uniflow.FlowH.forkKinds Uniflow.FlowH.forkLinks) C02.dropOneSched) = false ∧
+    (match refAnswers (runExt (initG Uniflow.FlowH.forkKinds Uniflow.FlowH.forkLinks) C02.dropOneSched),
+           (runExt (initG Uniflow.FlowH.forkKinds Uniflow.FlowH.forkLinks) C02.dropOneSched).resp with
+     | some [.pay (.atom 7), .pay (.atom 11)], [.pay (.atom 7), .pay (.atom 11)] => true
+     | _, _ => false) = true := by
+  refine ⟨⟨Uniflow.FlowN.graphWF5_of_graphWF3 _ _ Uniflow.FlowH.fork_wf, ?_⟩, rfl, rfl, rfl⟩
+  intro e he
+  simp only [C02.dropOneSched, List.mem_cons, List.mem_nil_iff, or_false] at he
+  rcases he with h | h | h | h | h | h | h | h <;> subst h <;>
+    first
+    | trivial
+    | exact Or.inr ⟨2, rfl⟩
+    | exact Or.inr (Or.inl rfl)
+
+open Uniflow.Flow in
+/-- the fork returns `[inPck, inPck]` (its input packet on both out ports), nodes 1 and 2 and the join node 3 pass
+their input through (`same`) -/
+def C02.forkSameSched : List Ext :=
+  [.send (.atom 1), .release 0 (.sames 2), .release 1 .same, .release 2 .same, .release 3 .same,
+   .sinkAnswer 0 (some (.pay (.atom 71)))]
+
+open Uniflow.Flow in
+/-- **non-vacuity of class T7, same packet on several out ports**: a fork returning `[inPck, inPck]` into a
+two-input join through pass-through nodes – since the fix `node.derive` every output is a packet of its own (a copy):
+the response is the join `[1, 71]` of the packet that did not complete the group (answered with itself) and the
+sink's answer, = `refAnswers`. -/
+theorem C02.flow_T7_fork_same_instance :
+    C02.ClassT7 C02.joinKinds C02.diamondLinks C02.forkSameSched ∧
+    quiescent (runExt (initG C02.joinKinds C02.diamondLinks) C02.forkSameSched) = true ∧
+    anyPanic (runExt (initG C02.joinKinds C02.diamondLinks) C02.forkSameSched) = false ∧
+    (match refAnswers (runExt (initG C02.joinKinds C02.diamondLinks) C02.forkSameSched),
+           (runExt (initG C02.joinKinds C02.diamondLinks) C02.forkSameSched).resp with
+     | some [.pay (.slice [.atom 1, .atom 71])], [.pay (.slice [.atom 1, .atom 71])] => true
+     | _, _ => false) = true := by
+  refine ⟨⟨Uniflow.FlowN.join_wf, ?_⟩, rfl, rfl, rfl⟩
+  intro e he
+  simp only [C02.forkSameSched, List.mem_cons, List.mem_nil_iff, or_false] at he
+  rcases he with h | h | h | h | h | h <;> subst h <;>
+    first
+    | trivial
+    | exact Or.inr (Or.inr ⟨2, rfl⟩)
 
 /-! ### classes T3 and T4 as corollaries of T5 -/
 
